@@ -743,6 +743,97 @@ def _ancestors(pm, n):
         yield n
 
 
+def _list_locals(fn: ast.AST) -> dict[str, list[ast.AST]]:
+    """locals / parameters that are lists: name -> defining expressions (empty for an annotated parameter)"""
+    out: dict[str, list[ast.AST]] = {}
+    a = fn.args  # type: ignore[attr-defined]
+    for x in a.posonlyargs + a.args + a.kwonlyargs:
+        if x.annotation is not None and re.match(r"(list|Sequence|MutableSequence)\[", unparse(x.annotation)):
+            out[x.arg] = []
+    for n in ast.walk(fn):
+        tv = None
+        if isinstance(n, ast.Assign) and len(n.targets) == 1 and isinstance(n.targets[0], ast.Name):
+            tv = (n.targets[0].id, n.value)
+        elif isinstance(n, ast.AnnAssign) and isinstance(n.target, ast.Name) and n.value is not None:
+            tv = (n.target.id, n.value)
+        if tv is None:
+            continue
+        v = tv[1]
+        if isinstance(v, (ast.List, ast.ListComp)) or (isinstance(v, ast.Call) and unparse(v.func) in ("list", "sorted")):
+            out.setdefault(tv[0], []).append(v)
+    return out
+
+
+def check_quadratic(idx: Index, rep: Report) -> None:
+    """Time roughly proportional to the input: a linear scan of a list whose length grows with the input (`L.count(x)`,
+    `L.index(x)`, `x in L`, `x in L[:i]`) repeated for every element of that same list (or of the list it was built from,
+    or inside the loop that appends to it) is quadratic in the number of entries of one dictionary / list literal."""
+    r = rep.rule("C07.R8", "no parser / lexer function scans an input-sized list linearly (count / index / membership / slice membership) once per element of that list", floor=None)
+    pos = ast.parse("def f(attrs: list[tuple[str, int]]):\n    keys = [k for k, _ in attrs]\n    return next((k for k in keys if keys.count(k) > 1), None)\n").body[0]
+    neg = ast.parse("def f(attrs: list[tuple[str, int]]):\n    seen: set[str] = set()\n    for k, _ in attrs:\n        if k in seen:\n            return k\n        seen.add(k)\n    return None\n").body[0]
+
+    def scan(fn: ast.AST) -> list[tuple[ast.AST, str, str]]:
+        lists = _list_locals(fn)
+        if not lists:
+            return []
+        # which lists have input-proportional length relative to which iteration source
+        def src_names(e: ast.AST) -> set[str]:
+            return {x.id for x in ast.walk(e) if isinstance(x, ast.Name)}
+
+        derived: dict[str, set[str]] = {nm: {nm} for nm in lists}
+        for nm, defs in lists.items():
+            for d in defs:
+                if isinstance(d, ast.ListComp):
+                    for g in d.generators:
+                        derived[nm] |= src_names(g.iter) & set(lists)
+                elif isinstance(d, ast.Call) and d.args:
+                    derived[nm] |= src_names(d.args[0]) & set(lists)
+        found = []
+        loops: list[tuple[ast.AST, ast.AST, list[ast.AST]]] = []  # (loop node, iter expr, body nodes)
+        for n in ast.walk(fn):
+            if isinstance(n, (ast.For, ast.AsyncFor)):
+                loops.append((n, n.iter, n.body))
+            elif isinstance(n, (ast.ListComp, ast.SetComp, ast.GeneratorExp, ast.DictComp)):
+                g0 = n.generators[0]
+                body = [n.elt] if not isinstance(n, ast.DictComp) else [n.key, n.value]
+                loops.append((n, g0.iter, body + list(g0.ifs) + [x for g in n.generators[1:] for x in [g.iter] + list(g.ifs)]))
+        for loop, it, body in loops:
+            it_lists = {nm for nm in src_names(it) if nm in lists}
+            if isinstance(it, ast.Call) and unparse(it.func) in ("enumerate", "reversed") and it.args:
+                it_lists = {nm for nm in src_names(it.args[0]) if nm in lists}
+            # lists appended to in this loop grow with it
+            grown = {unparse(c.func.value) for b in body for c in ast.walk(b) if isinstance(c, ast.Call) and isinstance(c.func, ast.Attribute) and c.func.attr in ("append", "extend") and isinstance(c.func.value, ast.Name) and c.func.value.id in lists}
+            related = set()
+            for nm in lists:
+                if nm in grown or derived[nm] & it_lists or any(nm in derived.get(s_, set()) for s_ in it_lists):
+                    related.add(nm)
+            if not related:
+                continue
+            for b in body:
+                for x in ast.walk(b):
+                    if isinstance(x, ast.Call) and isinstance(x.func, ast.Attribute) and x.func.attr in ("count", "index") and isinstance(x.func.value, ast.Name) and x.func.value.id in related:
+                        found.append((x, x.func.value.id, f".{x.func.attr}()"))
+                    if isinstance(x, ast.Compare) and len(x.ops) == 1 and isinstance(x.ops[0], (ast.In, ast.NotIn)):
+                        c0 = x.comparators[0]
+                        base = c0.value if isinstance(c0, ast.Subscript) and isinstance(c0.slice, ast.Slice) else c0
+                        if isinstance(base, ast.Name) and base.id in related:
+                            found.append((x, base.id, "membership test"))
+        return found
+
+    if len(scan(pos)) != 1 or scan(neg):
+        raise AnalysisError("C07.R8: the quadratic-scan detector fails its positive / negative example")
+    r.ok("self-check", "list.count inside a generator over the same list: recognised; set membership: not reported")
+    nfun = 0
+    for m in REGEX_MODULES:
+        mi = idx.module(m)
+        for f in raw_funcs(mi):
+            nfun += 1
+            for x, nm, what in scan(f.node):
+                inst = f"{f.fq}:{nm}{what}"
+                r.fail(inst, Finding("C07.R8", f.fq, f"quadratic-scan:{what}", f"`{unparse(x)[:70]}` is a linear {what} of the list `{nm}`, evaluated once per element of a loop over that list (or over the list it is built from / inside the loop that fills it): a single dictionary or list literal with n entries costs n^2 steps, so parsing time is no longer proportional to the input size", f"{m}:{x.lineno}"))
+    rep.extra.setdefault("c07_r8_functions", nfun)
+
+
 def check(idx: Index, rep: Report, tier: str) -> str:
     rep.run(check_redos, idx, rep, tier)
     rep.run(check_unicode_predicates, idx, rep)
@@ -754,6 +845,7 @@ def check(idx: Index, rep: Report, tier: str) -> str:
     rep.run(check_tuple_index, idx, rep)
     rep.run(check_raw_indexing, idx, rep)
     rep.run(check_find_sentinel, idx, rep)
+    rep.run(check_quadratic, idx, rep)
     return (
         "Regular-language ambiguity analysis of every regex of the lexer/parser modules (ReDoS), Unicode-width check of "
         "the lexer's digit dispatch, and a guard / sibling-agreement classification of every raise, assert and partial "
